@@ -3,22 +3,28 @@
 (* Trace validation for C35.  Every record is one real transport.Stream     *)
 (* around a fake agent process (the harness executable re-executed with one *)
 (* of the behaviours), closed with the real Stream.Close:                   *)
-(*   in  = behaviour, its delay, the termination delay set on the stream;   *)
+(*   in  = behaviour, its delay, the termination delay set on the stream,   *)
+(*         the descendant the agent started first (none | inherit | own |   *)
+(*         dies, see AgentClose.tla) and whether NewStream got a standard   *)
+(*         error receiver;                                                  *)
 (*   out = returned (Close came back within the watchdog of r.in.watchdog   *)
 (*         ms, far above the worst legitimate latency of delay + 2 s),      *)
 (*         latency in ms, alive (the pid still exists after the return /    *)
-(*         after the watchdog), what the agent saw (end of input, SIGTERM). *)
+(*         after the watchdog; the AGENT's pid - a descendant may           *)
+(*         legitimately survive, childalive is informational), what the     *)
+(*         agent saw (end of input, SIGTERM).                               *)
 (* Only the two unambiguous facts are verdicts; latency outside the window  *)
 (* the escalation model predicts is counted as drift.                       *)
 (***************************************************************************)
 EXTENDS AgentCloseProps, TraceKit
 
 CONSTANT Want
-VARIABLES l, fails, drift, escalated, done
-tvars == <<l, fails, drift, escalated, done>>
+VARIABLES l, fails, drift, escalated, held, done
+tvars == <<l, fails, drift, escalated, held, done>>
 
 WellFormed(r) == /\ Has(r, "ev") /\ r.ev = "AgentClose" /\ Has(r, "in") /\ Has(r, "out")
                  /\ r.out.returned \in BOOLEAN /\ r.out.alive \in BOOLEAN /\ r.out.ms \in Nat
+                 /\ r.in.child \in {"none", "inherit", "own", "dies"} /\ r.in.recv \in BOOLEAN
 RecFails(i, r) ==
   IF ~WellFormed(r) THEN <<Fail(i, "TraceAccepted")>>
   ELSE Chk(Want, i, "C35_Returns", C35_Returns(r.out))
@@ -35,16 +41,19 @@ Earliest(in) ==
     [] OTHER -> in.td + 2000
 Drift(r) == WellFormed(r) /\ r.out.returned /\ (r.out.ms + 50 < Earliest(r.in) \/ r.out.ms > Earliest(r.in) + 3000)
 
-TInit == l = 1 /\ fails = <<>> /\ drift = 0 /\ escalated = 0 /\ done = FALSE
+\* cases in which a surviving descendant holds the standard error pipe when Close is called
+Held(r) == WellFormed(r) /\ r.in.recv /\ r.in.child = "inherit"
+TInit == l = 1 /\ fails = <<>> /\ drift = 0 /\ escalated = 0 /\ held = 0 /\ done = FALSE
 Step == /\ l <= NRec
         /\ LET r == Trace[l] IN
            /\ fails' = Cap(fails \o RecFails(l, r))
            /\ drift' = drift + (IF Drift(r) THEN 1 ELSE 0)
            /\ escalated' = escalated + (IF WellFormed(r) /\ r.out.sawterm THEN 1 ELSE 0)
+           /\ held' = held + (IF Held(r) THEN 1 ELSE 0)
         /\ l' = l + 1 /\ UNCHANGED done
 Finish == /\ l = NRec + 1 /\ ~done
-          /\ WriteResult(l - 1, fails, [stat_latency_drift |-> drift, stat_saw_sigterm |-> escalated])
-          /\ done' = TRUE /\ UNCHANGED <<l, fails, drift, escalated>>
+          /\ WriteResult(l - 1, fails, [stat_latency_drift |-> drift, stat_saw_sigterm |-> escalated, stat_descendant_holds_stderr |-> held])
+          /\ done' = TRUE /\ UNCHANGED <<l, fails, drift, escalated, held>>
 TNext == Step \/ Finish
 TSpec == TInit /\ [][TNext]_tvars
 ====
